@@ -19,7 +19,10 @@ Record access := mk_access {
   a_fn : string;                 (* function (closures: f$n) *)
   a_pos : string;                (* file:line *)
   a_write : bool;
-  a_held : list (string * lmode);  (* mutexes of the same object (or package-level mutexes) held at this point *)
+  a_held : list (string * lmode);  (* mutexes of the same object (or package-level mutexes) held at this point; for a struct
+                                      without a mutex of its own (the entries of a table, e.g. vnet.mapping): the mutexes held at
+                                      this point named after the type of the object they belong to ("Owner.mutex") - such a struct
+                                      is guarded by the object that owns it *)
   a_init : bool                  (* on an object created in this function: before publication *)
 }.
 
